@@ -566,10 +566,11 @@ theorem C12_abstract_state_follows (ss : Session) (op : Op) (a a' : Spec.Message
 
 /-! ### the walk of `checkSession`, for one segment
 
-  `C12_walk_reaches_final_check_partial` (restriction: sessions without `clear_rrs` and `getters`,
-  non-empty RRsets, limits at most 65535): from a fresh writer, `Spec.Message.walk` — run with the
+  `C12_walk_reaches_final_check_partial` (restriction: sessions without `clear_rrs`, non-empty
+  RRsets, limits at most 65535): from a fresh writer, `Spec.Message.walk` — run with the
   specification's initial abstract state on the calls of the session (`toSpecOp`), the statuses the
-  model reports (`statusStr`, then `"ok"` for `finish`), the finished message and its decoding —
+  model reports (`obs`: `statusStr` of every call, for `getters` what they report — equal to what
+  the specification expects, `gettersStr_eq` —, then `"ok"` for `finish`), the finished message and its decoding —
   never rejects: every successful call is accepted by `absOk` (whose `cur`, read off the decoded
   extents, is the cursor: `extents_prefix`), every failed call is `justified`; it equals the final
   `checkSegment` in an abstract state `aF` that describes the final writer state (`AbsNum`) and whose
@@ -578,13 +579,12 @@ theorem C12_abstract_state_follows (ss : Session) (op : Op) (a a' : Spec.Message
   `C12_refinement_item_modes` compares the decoded message with).
   What remains of `C12_full`: the rest of `checkSegment aF d …` (name equality by mode and
   records — `C12_refinement_item_modes` in the decoder's vocabulary —, TSIG record, size —
-  `C12_limit_all_sequences` —, pointer audit — C13), `getters`, and the segments ended by
-  `clear_rrs`. -/
+  `C12_limit_all_sequences` —, pointer audit — C13), and the segments ended by `clear_rrs`. -/
 theorem C12_walk_reaches_final_check_partial (macFn : Tsig → List UInt8 → List UInt8) (hmac : MacLenOK macFn)
     (buf : Bytes) (limit : Nat) (s0 : State) (hnew : Writer.new buf limit = .ok s0) (hlim : limit ≤ 65535)
     (mode : CMode) (ops : List Op) (ht : ∀ op ∈ ops, op.Typed) (hb : ∀ op ∈ ops, ApiBounds op)
     (hr : Respects { w := { s0 with mode := mode } } ops) (hv : ∀ v, Op.setLimit v ∈ ops → v ≤ 65535)
-    (hno : ∀ op ∈ ops, op ≠ .clearRrs ∧ op ≠ .getters ∧ NonEmptySet op) (mac' : Option (List UInt8)) :
+    (hno : ∀ op ∈ ops, op ≠ .clearRrs ∧ NonEmptySet op) (mac' : Option (List UInt8)) :
     ∃ m mac d aF, finish (run { w := { s0 with mode := mode } } ops).1.w macFn = .ok (m, mac) ∧
       Spec.Message.specDecodeMsg m = some d ∧ AbsNum (run { w := { s0 with mode := mode } } ops).1.w aF ∧
       aF.hdr = d.msg.header ∧ aF.hdr.z = 0 ∧
@@ -594,13 +594,13 @@ theorem C12_walk_reaches_final_check_partial (macFn : Tsig → List UInt8 → Li
       Spec.Message.walk false
           { mode := Driver.toSpecMode mode, buflen := buf.size, limit := min limit buf.size }
           (ops.map Driver.toSpecOp)
-          ((run { w := { s0 with mode := mode } } ops).2.map Driver.statusStr ++ ["ok"]) [m] (some d) mac' =
+          (obs { w := { s0 with mode := mode } } ops ++ ["ok"]) [m] (some d) mac' =
         Spec.Message.checkSegment false aF d m.size mac' :=
   walk_from_new macFn hmac buf limit s0 hnew hlim mode ops ht hb hr hv hno mac'
 
 /-! ### the clauses of the final check, in the specification's own vocabulary
 
-  `C12_final_check_clauses_partial` (same restriction as the walk: no `clear_rrs`, no `getters`): the
+  `C12_final_check_clauses_partial` (same restriction as the walk: no `clear_rrs`): the
   walk equals `checkSegment false aF d m.size mac'`, and for this `aF` and `d` the clauses of
   `checkSegment` hold as the executable specification writes them: the header equals the decoded
   header with Z = 0; the question count; `listEq` of `nameEq`/type/class over the questions zipped
@@ -616,13 +616,13 @@ theorem C12_final_check_clauses_partial (macFn : Tsig → List UInt8 → List UI
     (buf : Bytes) (limit : Nat) (s0 : State) (hnew : Writer.new buf limit = .ok s0) (hlim : limit ≤ 65535)
     (mode : CMode) (ops : List Op) (ht : ∀ op ∈ ops, op.Typed) (hb : ∀ op ∈ ops, ApiBounds op)
     (hr : Respects { w := { s0 with mode := mode } } ops) (hv : ∀ v, Op.setLimit v ∈ ops → v ≤ 65535)
-    (hno : ∀ op ∈ ops, op ≠ .clearRrs ∧ op ≠ .getters ∧ NonEmptySet op) (mac' : Option (List UInt8)) :
+    (hno : ∀ op ∈ ops, op ≠ .clearRrs ∧ NonEmptySet op) (mac' : Option (List UInt8)) :
     ∃ m mac d aF, finish (run { w := { s0 with mode := mode } } ops).1.w macFn = .ok (m, mac) ∧
       Spec.Message.specDecodeMsg m = some d ∧
       Spec.Message.walk false
           { mode := Driver.toSpecMode mode, buflen := buf.size, limit := min limit buf.size }
           (ops.map Driver.toSpecOp)
-          ((run { w := { s0 with mode := mode } } ops).2.map Driver.statusStr ++ ["ok"]) [m] (some d) mac' =
+          (obs { w := { s0 with mode := mode } } ops ++ ["ok"]) [m] (some d) mac' =
         Spec.Message.checkSegment false aF d m.size mac' ∧
       aF.hdr = d.msg.header ∧ aF.hdr.z = 0 ∧ m.size ≤ aF.limit ∧
       AbsCfg (run { w := { s0 with mode := mode } } ops).1.w aF ∧
@@ -646,7 +646,7 @@ theorem C12_final_check_clauses_partial (macFn : Tsig → List UInt8 → List UI
 
 /-! ### the walk of a segment reduces to the pointer audit
 
-  `C12_segment_reduces_to_pointer_audit_partial` (no `clear_rrs`, no `getters`; the MAC has exactly the
+  `C12_segment_reduces_to_pointer_audit_partial` (no `clear_rrs`; the MAC has exactly the
   size the specification expects — `hml` —, and the MAC handed to the specification is the one
   `finish` returned): everything `walk` and `checkSegment` check holds, including the Bool form of
   the TSIG check (`tsigRecordOk_of`), so the whole walk *equals* `auditPointers d modes mode`, the
@@ -656,7 +656,7 @@ theorem C12_segment_reduces_to_pointer_audit_partial (macFn : Tsig → List UInt
     (hlim : limit ≤ 65535) (mode : CMode) (ops : List Op) (ht : ∀ op ∈ ops, op.Typed)
     (hb : ∀ op ∈ ops, ApiBounds op) (hr : Respects { w := { s0 with mode := mode } } ops)
     (hv : ∀ v, Op.setLimit v ∈ ops → v ≤ 65535)
-    (hno : ∀ op ∈ ops, op ≠ .clearRrs ∧ op ≠ .getters ∧ NonEmptySet op)
+    (hno : ∀ op ∈ ops, op ≠ .clearRrs ∧ NonEmptySet op)
     (hml : ∀ m mac ts, finish (run { w := { s0 with mode := mode } } ops).1.w macFn = .ok (m, mac) →
       (run { w := { s0 with mode := mode } } ops).1.w.tsig = some ts →
       (mac.getD []).length = (toATsig ts).macLen)
@@ -669,24 +669,24 @@ theorem C12_segment_reduces_to_pointer_audit_partial (macFn : Tsig → List UInt
       Spec.Message.walk false
           { mode := Driver.toSpecMode mode, buflen := buf.size, limit := min limit buf.size }
           (ops.map Driver.toSpecOp)
-          ((run { w := { s0 with mode := mode } } ops).2.map Driver.statusStr ++ ["ok"]) [m] (some d) mac' =
+          (obs { w := { s0 with mode := mode } } ops ++ ["ok"]) [m] (some d) mac' =
         Spec.Message.auditPointers d aF.itemModes.reverse aF.mode :=
   segment_reduces_to_audit macFn hmac buf limit s0 hnew hlim mode ops ht hb hr hv hno hml mac' hmac'
 
 /-! ### `C12_full`, for one segment, up to the pointer audit
 
   `C12_full_one_segment_modulo_audit_partial`: the statement of `C12_full` itself — `checkSession` on
-  what `Driver.runModel` observes — for sessions without `clear_rrs` and `getters`, with one
+  what `Driver.runModel` observes — for sessions without `clear_rrs`, with one
   premise left: the pointer audit of the decoded message (`auditPointers`, C13 in the decoder's
   vocabulary). Everything else `checkSession` checks is proved: no call panics, `finish` succeeds,
   the message decodes, the walk accepts every call (`absOk` for successes, `justified` for
-  failures), header, questions and records compared in the mode of each item, the OPT and the TSIG
+  failures, the getters report what the specification expects), header, questions and records compared in the mode of each item, the OPT and the TSIG
   record, the size limit. (`hml`: the MAC has exactly the size the specification expects.) -/
 theorem C12_full_one_segment_modulo_audit_partial (buf : Bytes) (limit : Nat) (mode : CMode) (s : State)
     (ops : List Op) (mac : Option (List UInt8)) (hnew : Writer.new buf limit = .ok s)
     (hr : Respects { w := { s with mode := mode } } ops) (ht : ∀ op ∈ ops, ApiTyped op) (hlim : limit ≤ 65535)
     (hv : ∀ v, Op.setLimit v ∈ ops → v ≤ 65535) (hmac : MacLenOK (fun _ _ => mac.getD []))
-    (hno : ∀ op ∈ ops, op ≠ .clearRrs ∧ op ≠ .getters)
+    (hno : ∀ op ∈ ops, op ≠ .clearRrs)
     (hml : ∀ m mc ts, finish (run { w := { s with mode := mode } } ops).1.w (fun _ _ => mac.getD []) = .ok (m, mc) →
       (run { w := { s with mode := mode } } ops).1.w.tsig = some ts → (mc.getD []).length = (toATsig ts).macLen) :
     ∃ (m : Bytes) (d : Spec.Message.Decoded) (aF : Spec.Message.AState),
